@@ -971,7 +971,9 @@ class MetadorContainerTOC:
             msg = "A schema name, plugin reference or class must be provided!"
             raise ValueError(msg)
 
-        start_node: MetadorNode = node or self._container["/"]
+        # (the container is the root node; looking it up by the absolute path "/"
+        # would be refused if the container itself is marked as local_only)
+        start_node: MetadorNode = node or self._container
 
         # check start node metadata explicitly
         if (schema_name, schema_ver) in start_node.meta:
